@@ -29,6 +29,11 @@ def handleLine (fs : List (List String)) : Option String :=
      | .metaL, some (k, v) => some ("K " ++ show_ k ++ " , " ++ show_ v)
      | .metaL, none => some "ERR"
      | _, _ => some "NOTMETA")
+  | [["scorerwrite"], ch, vals] =>
+    some ("L " ++ " ".intercalate ((scorerLine (ch.map nat!) (splitLines vals)).map toString))
+  | [["scorerread"], line] =>
+    let r := readScorerLine (line.map nat!)
+    some ("R " ++ " ".intercalate (r.1.map toString) ++ " , " ++ " / ".intercalate (r.2.map fun v => " ".intercalate (v.map toString)))
   | [["dstrebuild"], toks] =>
     -- the matrix read_dst returned (cells as the bit patterns of the doubles; 0 is 0.0) -> what read_qlc keeps
     let m := splitLines toks
